@@ -1,18 +1,18 @@
 SPECIFICATION MCSpec
 CONSTANTS Nib = {0, 1, 15}
           KeyLen = 2
-          Vals = {281, 291}
+          Vals = {331}
           Pad = 0
-          MaxKeys = 2
-          Mode = "edges"
+          MaxKeys = 4
+          Mode = "edgesb"
           SeqBatches = TRUE
           Depth = 0
           NBatch = 0
           NKeys = 4
-          BOps <- OpsAll
-          BatchLens = {}
+          BOps <- OpsPool
+          BatchLens = {4}
           BatchSet <- MCBatchSet
-INVARIANTS CanonInv LookupInv IterInv WFInv BatchInv
+INVARIANTS CanonInv WFInv BatchInv
 CONSTRAINT Small
 ACTION_CONSTRAINT Edge
 VIEW View
